@@ -40,6 +40,20 @@ func Spec() *mon.Spec {
 
 func gen(g *mon.Gen) {
 	rng := g.Rng
+	vals := []int{0, 1, 17, 58, 128, 255}
+	if g.Thorough() {
+		vals = vals[:0]
+		for v := 0; v < 256; v++ {
+			vals = append(vals, v)
+		}
+	} else {
+		for k := 0; k < 10; k++ {
+			vals = append(vals, rng.Intn(256))
+		}
+	}
+	for _, v := range vals {
+		g.Emit(&Case{Kind: "cube", N: v, Seed: rng.Int63()})
+	}
 	reps := g.Pick(6, 400)
 	for fr := 0; fr < 2; fr++ {
 		for _, fc := range []uint8{1, 2} {
@@ -177,6 +191,8 @@ func run(ci any, r *mon.Rec) {
 			}
 		}
 		r.Sample(c)
+	case "cube":
+		runCube(c, r, rng)
 	case "exc":
 		runExc(c, r, fr, rng)
 	case "mismatch":
@@ -395,6 +411,35 @@ func runWeak(c *Case, r *mon.Rec, fr specref.Framing, rng *rand.Rand) {
 					r.Violate(c, "bytes-panics", mon.Attrs{"entry": e.Name, "fc": int(c.FC), "framing": fr.String(), "weak": true, "count": n}, fmt.Sprintf("frame with byte count %d parsed, Bytes() panics: %s", n, txt))
 				} else if !bytes.Equal(b, frame) {
 					r.Violate(c, "reencode-differs", mon.Attrs{"entry": e.Name, "fc": int(c.FC), "framing": fr.String(), "weak": true}, fmt.Sprintf("count %d: frame % x -> % x", n, head(frame), head(b)))
+				}
+			}
+		}
+	}
+}
+
+// runCube: (8-bit field c.N) x (all values of a 16-bit field) for response shapes with free-form tails:
+// FC17 (one server-id byte x the last two additional bytes), FC3/FC6 (unit x value), both framings, dispatcher + per-function parser.
+func runCube(c *Case, r *mon.Rec, rng *rand.Rand) {
+	b8 := uint8(c.N)
+	tid := uint16(rng.Intn(65536))
+	unit := uint8(rng.Intn(256))
+	for v := 0; v < 65536; v++ {
+		lo, hi := byte(v), byte(v>>8)
+		ps := []specref.Resp{
+			{FC: 17, Unit: unit, TID: tid, ServerID: []byte{b8, 7}, Status: 0xFF, Additional: []byte{1, hi, lo}},
+			{FC: 3, Unit: b8, TID: tid, Data: []byte{hi, lo}},
+			{FC: 6, Unit: b8, TID: tid, Addr: uint16(c.N) * 257, Value: uint16(v)},
+		}
+		if v%8 == 0 || r.Thorough() {
+			ps = append(ps, specref.Resp{FC: 1, Unit: b8, TID: tid, Data: []byte{hi, lo}}, specref.Resp{FC: 23, Unit: b8, TID: tid, Data: []byte{9, 9, hi, lo}})
+		}
+		for _, p := range ps {
+			for _, f := range []specref.Framing{specref.TCP, specref.RTU} {
+				frame := p.Encode(f)
+				cc := *c
+				cc.FC = p.FC
+				for _, e := range entryCache[[2]int{int(p.FC), int(f)}] {
+					checkWF(&cc, r, e, f, p, frame)
 				}
 			}
 		}
